@@ -185,7 +185,13 @@ def run_extra(ex, prop, tier, seed):
 
 def match_known(known, prop, obligation, path):
     for k in known.get("findings", []):
-        if k.get("property") == prop and k.get("obligation") == obligation:
+        if k.get("property") != prop and prop not in k.get("also", []):
+            continue
+        if k.get("obligation") == obligation:
+            return k
+        # a finding may own every obligation of one contract variant built for it (symbolic and native names alike)
+        pre = k.get("obligation_prefix")
+        if pre and obligation.startswith(pre):
             return k
     return None
 
